@@ -74,7 +74,7 @@ theorem Step.coarse {z : Z} {r : Token × Z} (h : Step z r) :
     intro sp hsp hm
     exact absurd (hsp _ hm) (by decide)
   cases h with
-  | tok sp pre hsp hpre hafter hbefore hline hty hpl hpo =>
+  | tok sp pre hsp hpre hafter hbefore hline hty hpl hpo _hstopt =>
     refine ⟨sp ++ pre, hafter, by simp [hbefore], Or.inl ⟨?_, hline, hty⟩⟩
     intro hm
     rcases List.mem_append.mp hm with hm | hm
